@@ -340,7 +340,21 @@ func batchItemsPrep(t *tokGen, shape string, n int) string {
 		return "-"
 	}
 	parts := []string{}
+	errItem := false
 	for i := 0; i < n; i++ {
+		// unusual but legal items: an ERROR Result handed over by prep (at most one per batch: it has no payload to
+		// tell it from another one), a Result whose value is itself a Result
+		if (shape == "results" || shape == "anys") && t.r.chance(9) {
+			if !errItem && t.r.chance(50) {
+				errItem = true
+				parts = append(parts, "xu"+strconv.Itoa(60+t.err()))
+			} else if shape == "results" {
+				parts = append(parts, "rr"+t.tok())
+			} else {
+				parts = append(parts, "r"+t.tok())
+			}
+			continue
+		}
 		switch shape {
 		case "typed":
 			// ints: tokens = 1 mod 8
